@@ -83,10 +83,146 @@ pub proof fn lemma_ref_sign(sign: Sign, d: int)
     if sign == Sign::Minus { assert(-1 * d == -d); }
 }
 
-// ------------------------------------------------------------------ Display dispatch (C20: exponent thresholds)
-/// result of one of the three formatting routines (0: exponential "E" form, 1: dotless "e" form, 2: full scale) on the
-/// decimal i * 10^-s with the formatter state f: NOT specified (the routines work on String / fmt::Formatter)
-pub uninterp spec fn fmt_route(kind: int, i: int, s: int, f: core::fmt::Formatter<'_>) -> core::fmt::Result;
+// ------------------------------------------------------------------ Display dispatch (C20: exponent thresholds) and texts (C16)
+/// mantissa of the exponential form: the first digit, then "." and the other digits when there are any
+pub open spec fn sci_layout(sd: Seq<u8>) -> Seq<u8> {
+    if sd.len() > 1 { sd.subrange(0, 1).push(46u8) + sd.subrange(1, sd.len() as int) } else { sd }
+}
+/// the significant digits `sd` and the exponent `e` printed by the exponential form for the magnitude n at scale s:
+/// without precision all digits of n; with precision N exactly N+1 digits - n padded with zeros, or n rounded at that
+/// digit with the oracle round_mag (normalised: a carry out of all nines prints 1000.. with the exponent raised by one)
+pub open spec fn sci_digits_ok(sd: Seq<u8>, e: int, n: int, s: int, prec: Option<usize>, mode: RoundingMode, neg: bool) -> bool {
+    let nd = ndigits(n);
+    let k = if prec.is_some() { prec.unwrap() as int + 1 } else { nd };
+    &&& ascii_digits(sd)
+    &&& sd.len() == k
+    &&& if k >= nd { dba(sd) == n * pow10(k - nd) && e == nd - 1 - s }
+        else { 0 <= e - (nd - 1 - s) <= 1 && dba(sd) >= pow10(k - 1) && dba(sd) * pow10(e - (nd - 1 - s)) == round_mag(n, nd - k, mode, neg) }
+}
+/// text of the exponential form with the exponent symbol `sym` ("e" / "E") for the magnitude n (negative: neg) at scale s:
+/// mantissa, then what std prints for "{}{:+}" of the symbol and the exponent (fmt_text: uninterpreted)
+pub open spec fn sci_text(text: Seq<char>, sym: Seq<char>, n: int, neg: bool, s: int, prec: Option<usize>) -> bool {
+    exists|sd: Seq<u8>, e: int| #[trigger] sci_digits_ok(sd, e, n, s, prec, cfg_default_rounding_mode(), neg)
+        && text == b2c(sci_layout(sd)) + fmt_text("{}{:+}"@, seq![FmtVal::Str(sym), FmtVal::Int(e)])
+}
+/// text of the dotless form: all digits of the unscaled integer, then "e" and the negated scale
+pub open spec fn dotless_text(text: Seq<char>, i: int, s: int) -> bool {
+    let n = iabs(i);
+    let tail = fmt_text("{}{:+}"@, seq![FmtVal::Str("e"@), FmtVal::Int(-s)]);
+    exists|d: Seq<u8>| #[trigger] ascii_digits(d) && d.len() == ndigits(n) && dba(d) == n && text == b2c(d) + tail
+}
+/// the value the digits of the full-scale form read as, printed with ts fractional digits: rounded with the oracle, or padded
+pub open spec fn full_want(n: int, s: int, ts: int, mode: RoundingMode, neg: bool) -> int {
+    if ts < s { round_mag(n, s - ts, mode, neg) } else { n * pow10(ts - s) }
+}
+/// text of the full-scale form ({} inside the thresholds, {:.N}): see the cases
+pub open spec fn full_text(text: Seq<char>, i: int, s: int, prec: Option<usize>) -> bool {
+    let n = iabs(i);
+    let nd = ndigits(n);
+    let mode = cfg_default_rounding_mode();
+    exists|out: Seq<u8>| #[trigger] ascii_bytes(out) && (
+        if s <= 0 {
+            // integer: the zeros of the exponent are written out (then "." and N zeros for a non-zero precision N) unless no
+            // precision was given and there are more than 20 of them, or more characters than the configured limit would be
+            // added; otherwise the digits are followed by "e+<exponent>" (nothing for the exponent 0)
+            let ts = if prec.is_some() { prec.unwrap() as int } else { 0int };
+            let added = -s + (if ts > 0 { ts + 1 } else { 0int });
+            let pad = !(prec.is_none() && -s > 20) && added <= cfg_fmt_max_integer_padding();
+            if pad { withint_render(out, ts, n * pow10(-s + ts)) && out.len() == nd + added && text == b2c(out) }
+            else { ascii_digits(out) && out.len() == nd && dba(out) == n
+                   && text == b2c(out) + (if s != 0 { fmt_text("e{:+}"@, seq![FmtVal::Int(-s)]) } else { Seq::<char>::empty() }) }
+        } else {
+            // exactly ts = N (or the scale, without precision) digits after the point, reading as the value rounded at that
+            // digit with the oracle round_mag under the configured default mode (or the value padded with zeros)
+            let ts = if prec.is_some() { prec.unwrap() as int } else { s };
+            &&& text == b2c(out)
+            &&& if ts + nd <= s { noint_small_render(out, ts, round_mag(n, s - ts, mode, i < 0)) }
+                else { withint_render(out, ts, full_want(n, s, ts, mode, i < 0)) }
+        })
+}
+/// `ret` is what Formatter::pad_integral returns when handed the sign flag, no prefix and a numeral that is the text of the
+/// exponential form with symbol `sym`
+pub open spec fn sci_routed2(ret: core::fmt::Result, sym: Seq<char>, n: int, neg: bool, nonneg: bool, s: int, f: core::fmt::Formatter<'_>) -> bool {
+    exists|text: Seq<char>| #[trigger] sci_text(text, sym, n, neg, s, fmt_precision(&f)) && ret == pad_integral_spec(f, nonneg, ""@, text)
+}
+pub open spec fn sci_routed(ret: core::fmt::Result, sym: Seq<char>, i: int, s: int, f: core::fmt::Formatter<'_>) -> bool {
+    sci_routed2(ret, sym, iabs(i), i < 0, i >= 0, s, f)
+}
+pub open spec fn dotless_routed(ret: core::fmt::Result, i: int, s: int, f: core::fmt::Formatter<'_>) -> bool {
+    exists|text: Seq<char>| #[trigger] dotless_text(text, i, s) && ret == pad_integral_spec(f, i >= 0, ""@, text)
+}
+pub open spec fn full_routed(ret: core::fmt::Result, i: int, s: int, f: core::fmt::Formatter<'_>) -> bool {
+    exists|text: Seq<char>| #[trigger] full_text(text, i, s, fmt_precision(&f)) && ret == pad_integral_spec(f, i >= 0, ""@, text)
+}
+/// ... the text of one of the three formatting routines (0: exponential "E" form, 1: dotless "e" form, 2: full scale)
+pub open spec fn fmt_routed(ret: core::fmt::Result, kind: int, i: int, s: int, f: core::fmt::Formatter<'_>) -> bool {
+    if kind == 0 { sci_routed(ret, "E"@, i, s, f) } else if kind == 1 { dotless_routed(ret, i, s, f) } else { full_routed(ret, i, s, f) }
+}
+/// the digits left by the ASCII rounding routine (value dl, l of them, r digits removed), padded with zeros to k digits, are
+/// the normalised k-digit rounding of n: they read as the oracle's value (divided by ten, with the exponent raised, after a
+/// carry out of all nines) and have a non-zero leading digit
+pub proof fn lemma_sci_digits(n: int, k: int, dl: int, l: int, r: int, v: int)
+    requires n >= 0, 1 <= k < ndigits(n), 1 <= l <= k, r >= ndigits(n) - k, dl * pow10(r - (ndigits(n) - k)) == v, 0 <= dl < pow10(l),
+             l + r == ndigits(n) || (l + r == ndigits(n) + 1 && l == 1),
+             n / pow10(ndigits(n) - k) <= v <= n / pow10(ndigits(n) - k) + 1
+    ensures (dl * pow10(k - l)) * pow10(l + r - ndigits(n)) == v, dl * pow10(k - l) >= pow10(k - 1)
+{
+    let nd = ndigits(n);
+    let m = nd - k;
+    let x = dl * pow10(k - l);
+    let delta = l + r - nd;
+    lemma_ndigits_bounds(n);
+    lemma_pow10_add(k - l, delta);
+    assert(k - l + delta == r - m);
+    assert(x * pow10(delta) == dl * pow10(r - m)) by (nonlinear_arith)
+        requires x == dl * pow10(k - l), pow10(k - l + delta) == pow10(k - l) * pow10(delta), k - l + delta == r - m;
+    // q = n / 10^m lies in [10^(k-1), 10^k)
+    lemma_pow10_add(k - 1, m);
+    lemma_pow10_add(k, m);
+    lemma_pow10_pos(m);
+    lemma_pow10_pos(k - 1);
+    let q = n / pow10(m);
+    assert(q >= pow10(k - 1)) by (nonlinear_arith)
+        requires q == n / pow10(m), n >= pow10(k - 1) * pow10(m), pow10(m) > 0;
+    assert(q < pow10(k)) by (nonlinear_arith)
+        requires q == n / pow10(m), n < pow10(k) * pow10(m), pow10(m) > 0;
+    if delta == 0 {
+        lemma_pow10_0();
+        assert(x * 1 == x);
+    } else {
+        // carry out of all nines: a single digit c with c * 10^k == v in [10^(k-1), 10^k]
+        assert(l == 1 && r - m == k);
+        lemma_pow10_1();
+        lemma_pow10_pos(k);
+        lemma_pow10_strict_mono(k - 1, k);
+        assert(dl == 1) by (nonlinear_arith)
+            requires dl * pow10(k) == v, pow10(k - 1) <= v <= pow10(k), 0 <= dl, pow10(k) > 0, pow10(k - 1) > 0;
+        assert(x == pow10(k - 1)) by (nonlinear_arith) requires x == dl * pow10(k - l), dl == 1, l == 1;
+    }
+}
+
+pub proof fn lemma_withint_ascii(out: Seq<u8>, ts: int)
+    requires ts >= 0, out.len() >= (if ts == 0 { 1int } else { ts + 2 }), ts > 0 ==> out[out.len() - ts - 1] == 46u8, ascii_digits(strip_point(out, ts))
+    ensures ascii_bytes(out)
+{
+    let sp = strip_point(out, ts);
+    assert forall|i: int| 0 <= i < out.len() implies (#[trigger] out[i]) < 128 by {
+        if ts == 0 { assert(sp[i] == out[i]); }
+        else {
+            let p = out.len() - ts - 1;
+            if i < p { assert(sp[i] == out[i]); } else if i > p { assert(sp[i - 1] == out[i]); }
+        }
+    }
+}
+pub proof fn lemma_noint_ascii(out: Seq<u8>, ts: int, v: int)
+    requires ts >= 0, noint_small_render(out, ts, v)
+    ensures ascii_bytes(out)
+{
+    assert forall|i: int| 0 <= i < out.len() implies (#[trigger] out[i]) < 128 by {
+        if i == out.len() - 1 { assert(out[i] == out.last()); }
+    }
+}
+
 /// which routine Display picks: the exponential form when more than `lead` zeros separate the point from the first digit,
 /// the dotless form when more than `trail` zeros would have to be appended, never when a precision is requested
 pub open spec fn display_route(nd: int, s: int, prec: Option<usize>, lead: int, trail: int) -> int {
@@ -554,6 +690,12 @@ pub mod ax {
         ensures #[trigger] into_ref(n) == n, into_ok(n)
     { broadcast use {axiom_ref_into_self, axiom_ref_into_self_obeys}; }
     pub broadcast group val_algebra { crate::vs::b_val_at_self, crate::vs::b_val_at_zero, crate::vs::b_val_at_neg, crate::vs::b_mul_cases, crate::vs::b_one_scale, b_into_ref_dec, b_into_ref_int, b_into_ref_ref }
+/// the crate's LowerExp / UpperExp impls for BigDecimalRef have no precondition (vstd gives every formatting trait method
+/// the precondition fmt_req, true for the types declared fmt_req_all; the impls are verified WITHOUT using it)
+#[verifier::external_body]
+pub broadcast proof fn axiom_fmt_req_all_ref_view<'a>()
+    ensures #[trigger] vstd::std_specs::fmt::fmt_req_all::<BigDecimalRef<'a>>()
+{}
 /// std's reflexive `impl<T> From<T> for T` is the identity (assumed)
 #[verifier::external_body]
 pub broadcast proof fn axiom_ref_into_self<'a>(x: BigDecimalRef<'a>)
